@@ -57,6 +57,12 @@ def execute(ctx, case):
     with monitors.oracle_scope_ctx():
         s = derive.build(case["pos"], case["neg"], case["ep"], case["en"], case["sc"], case["ec"], case.get("via", "ctor"), case.get("_seed", 0))
     fn = score_analysis.roc if case["pkg"] else RC.roc
-    fn(s, nb_points=case["nb_points"], x_axis=case["x_axis"], **case["kw"])  # judged by M-roc
+    A = fn(s, nb_points=case["nb_points"], x_axis=case["x_axis"], **case["kw"])  # judged by M-roc
+    if case.get("_seed", 0) % 3 == 0:
+        # a history across curves: evaluate (another view of) the object at the operating thresholds of the curve just returned;
+        # M-roc re-inspects the kept curve A on every later call
+        other = s if case["_seed"] % 2 else s.swap()
+        fn(other, thresholds=A.thresholds, nb_points=None if case["_seed"] % 5 else 3, x_axis=monitors.X_AXES[case["_seed"] % len(monitors.X_AXES)])
+        fn(s, thresholds=A.thresholds, fnr=A.fnr, nb_points=None, x_axis=case["x_axis"])
     ctx.sess.sig_counts[("case", case["sc"], case["ec"], case["kind"], tuple(sorted(case["kw"])), case["nb_points"], case["x_axis"])] += 1
     return bool(case["kw"] or (len(case["pos"]) >= 2 and len(case["neg"]) >= 2))
